@@ -106,6 +106,8 @@ int main(int argc,char**argv){
           if (auto*CB=dyn_cast<CallBase>(&I)){ if (auto*CF=CB->getCalledFunction()){ io["callee"]=CF->getName().str(); if (CF->isIntrinsic()) io["intrinsic"]=true; } else { io["callee"]=nullptr; if (CB->isInlineAsm()) io["asm"]=true; } io["nargs"]=(int64_t)CB->arg_size(); }
           if (auto*SW=dyn_cast<SwitchInst>(&I)){ json::Array cs; for (auto &Cs: SW->cases()){ json::Object c; c["v"]=apStr(Cs.getCaseValue()->getValue()); c["b"]=(int64_t)C.id(Cs.getCaseSuccessor()); cs.push_back(std::move(c)); } io["cases"]=std::move(cs); io["default"]=(int64_t)C.id(SW->getDefaultDest()); }
           if (auto*PN=dyn_cast<PHINode>(&I)){ json::Array inc; for (unsigned k=0;k<PN->getNumIncomingValues();k++){ json::Object c; c["v"]=operand(C,PN->getIncomingValue(k)); c["b"]=(int64_t)C.id(PN->getIncomingBlock(k)); inc.push_back(std::move(c)); } io["incoming"]=std::move(inc); }
+          if (auto*EV=dyn_cast<ExtractValueInst>(&I)){ json::Array ix; for (unsigned x: EV->indices()) ix.push_back((int64_t)x); io["indices"]=std::move(ix); }
+          if (auto*IV=dyn_cast<InsertValueInst>(&I)){ json::Array ix; for (unsigned x: IV->indices()) ix.push_back((int64_t)x); io["indices"]=std::move(ix); }
           if (auto*OB=dyn_cast<OverflowingBinaryOperator>(&I)){ io["nuw"]=OB->hasNoUnsignedWrap(); io["nsw"]=OB->hasNoSignedWrap(); }
           is.push_back(std::move(io)); }
         bo["insts"]=std::move(is); bs.push_back(std::move(bo)); }
